@@ -1,11 +1,21 @@
 package sim
 
 import (
+	"bytes"
+	"fmt"
+	"runtime/debug"
+	"sort"
+	"sync/atomic"
+
+	ipfslog "berty.tech/go-ipfs-log"
+	"berty.tech/go-ipfs-log/accesscontroller"
 	"berty.tech/go-ipfs-log/enc"
 	"berty.tech/go-ipfs-log/entry"
+	"berty.tech/go-ipfs-log/identityprovider"
 	"berty.tech/go-ipfs-log/iface"
 	"berty.tech/go-ipfs-log/io/cbor"
 	"berty.tech/go-ipfs-log/io/pb"
+	"github.com/ipfs/go-cid"
 )
 
 type byzPlan struct{}
@@ -34,6 +44,792 @@ func pbIO() iface.IO {
 	return io
 }
 
-func (w *World) dispatchExt(op int) {}
+func (w *World) dispatchExt(op int) {
+	switch op {
+	case opIter:
+		w.doIter()
+	case opBounded:
+		w.doBounded()
+	case opByz:
+		w.doByz()
+	case opDenied:
+		w.doDenied()
+	case opPolicy:
+		w.doPolicy()
+	case opTamper:
+		w.doTamper()
+	case opReader:
+		w.doReader()
+	}
+}
 
 func (w *World) finish() {}
+
+// ------------------------------------------------------------------ C15 iterator
+
+func (w *World) descLess(a, b *MEntry) bool { // a newer than b
+	if a.Time != b.Time {
+		return a.Time > b.Time
+	}
+	if a.ClockID != b.ClockID {
+		return a.ClockID > b.ClockID
+	}
+	return a.Hash > b.Hash
+}
+
+func (w *World) doIter() {
+	n := w.pickUp("iter-node")
+	r := w.R
+	mode := r.Choose("iter-upper", 8) // 0-1 default, 2-4 LTE, 5-6 LT, 7 unknown
+	nb := 1 + r.Choose("iter-nbounds", 3)
+	picks := []int{r.Choose("iter-b0", 1<<16), r.Choose("iter-b1", 1<<16), r.Choose("iter-b2", 1<<16)}
+	lower := r.Choose("iter-lower", 3)
+	lowerPick := r.Choose("iter-lowpick", 1<<16)
+	amtMode := r.Choose("iter-amount-mode", 3) // 0 absent, 1 in 0..|R|+2, 2 zero or huge
+	amtPick := r.Choose("iter-amount", 1<<16)
+	capPick := r.Choose("iter-cap", 1<<16)
+	if n == nil || len(n.Set) == 0 {
+		return
+	}
+	m := w.M
+	all := sortedKeys(n.Set)
+	opts := &ipfslog.IteratorOptions{}
+	var starts []string
+	desc := ""
+	unknown := false
+	switch {
+	case mode <= 1:
+		starts = m.Heads(n.Set)
+		desc = "heads"
+	case mode <= 4:
+		for i := 0; i < nb; i++ {
+			h := all[picks[i]%len(all)]
+			opts.LTE = append(opts.LTE, w.Cids[h])
+			starts = append(starts, h)
+		}
+		desc = fmt.Sprintf("lte%v", m.Names(starts))
+	case mode <= 6:
+		h := all[picks[0]%len(all)]
+		opts.LT = []cid.Cid{w.Cids[h]}
+		starts = append(starts, m.Reg[h].Next...)
+		desc = fmt.Sprintf("lt[%s]", m.Name(h))
+	default:
+		// an upper bound the log does not hold
+		var foreign []string
+		for _, h := range m.Order {
+			if !n.Set[h] {
+				foreign = append(foreign, h)
+			}
+		}
+		if len(foreign) == 0 {
+			w.ensureForeign()
+			for _, e := range w.Foreign.Values().Slice() {
+				w.Cids[e.GetHash().String()] = e.GetHash()
+				foreign = append(foreign, e.GetHash().String())
+			}
+		}
+		h := foreign[picks[0]%len(foreign)]
+		if picks[1]%2 == 0 {
+			opts.LTE = []cid.Cid{w.Cids[h]}
+		} else {
+			opts.LT = []cid.Cid{w.Cids[h]}
+		}
+		unknown = true
+		desc = "unknown-upper"
+	}
+	// range: causal past of the starts inside the log, newest first
+	R := m.PastIn(n.Set, starts)
+	D := make([]*MEntry, 0, len(R))
+	for h := range R {
+		D = append(D, m.Reg[h])
+	}
+	sort.Slice(D, func(i, j int) bool { return w.descLess(D[i], D[j]) })
+	_, strict := m.Linear(R, w.ByHash)
+	related := 0
+	if len(opts.LTE) > 1 {
+		for i, a := range starts {
+			pa := m.Past(a)
+			for j, b := range starts {
+				if i != j && (pa[b] || a == b) {
+					related++
+				}
+			}
+		}
+	}
+	exp := D
+	if unknown || len(D) == 0 {
+		lower = 0
+	}
+	if lower > 0 {
+		idx := lowerPick % len(D)
+		x := D[idx]
+		if lower == 1 {
+			opts.GTE = w.Cids[x.Hash]
+			exp = D[:idx+1]
+			desc += "+gte" + m.Name(x.Hash)
+		} else {
+			opts.GT = w.Cids[x.Hash]
+			exp = D[:idx]
+			desc += "+gt" + m.Name(x.Hash)
+		}
+	}
+	amount := -1
+	switch amtMode {
+	case 1:
+		amount = amtPick % (len(D) + 3)
+	case 2:
+		if amtPick%2 == 0 {
+			amount = 0
+		} else {
+			amount = len(n.Set) + 1 + amtPick%5
+		}
+	}
+	if amount >= 0 {
+		opts.Amount = &amount
+		desc += fmt.Sprintf("+amount%d", amount)
+		if amount < len(exp) {
+			if lower > 0 {
+				exp = exp[len(exp)-amount:]
+			} else {
+				exp = exp[:amount]
+			}
+		}
+		if amount == 0 {
+			r.Probe("iter-amount-zero")
+		} else if amount > len(D) {
+			r.Probe("iter-amount-beyond-range")
+		}
+	}
+	capN := capPick % (len(D) + 2)
+	ch := make(chan iface.IPFSLogEntry, capN)
+	type iterRes struct {
+		err error
+		pan *fetchPanic
+	}
+	done := make(chan iterRes, 1)
+	go func() {
+		defer func() {
+			if x := recover(); x != nil {
+				done <- iterRes{pan: &fetchPanic{x, string(debug.Stack())}}
+			}
+		}()
+		done <- iterRes{err: n.Log.Iterator(opts, ch)}
+	}()
+	var got []string
+	closed := false
+	var res iterRes
+	finished := false
+	for !finished {
+		select {
+		case e, ok := <-ch:
+			if !ok {
+				closed = true
+				res = <-done
+				finished = true
+			} else {
+				got = append(got, e.GetHash().String())
+			}
+		case res = <-done:
+			finished = true
+			// producer returned: whatever it sent is buffered; drain without blocking
+			for drained := false; !drained; {
+				select {
+				case e, ok := <-ch:
+					if !ok {
+						closed = true
+						drained = true
+					} else {
+						got = append(got, e.GetHash().String())
+					}
+				default:
+					drained = true
+				}
+			}
+		}
+	}
+	r.Logf("iter n%d %s cap=%d |range|=%d -> %d emitted closed=%v err=%v", n.Idx, desc, capN, len(D), len(got), closed, res.err != nil)
+	if res.pan != nil {
+		site, _ := panicSite(res.pan.stack)
+		r.Violate("C15:panic", "Iterator panicked: %v | %s (options %s, range %d)", res.pan.val, site, desc, len(D))
+	}
+	if unknown {
+		if res.err == nil {
+			r.Violate("C15:unknown-bound", "unknown upper bound was not reported as an error (%s)", desc)
+		}
+		return
+	}
+	if res.err != nil {
+		r.Violate("C15:error", "Iterator returned %v for valid options %s", res.err, desc)
+	}
+	if !closed {
+		r.Violate("C15:not-closed", "Iterator returned success without closing the output channel (options %s, %d emitted)", desc, len(got))
+	}
+	if hasDup(got) {
+		r.Violate("C15:duplicate", "Iterator emitted an entry twice (%s): %v", desc, m.Names(got))
+	}
+	var want []string
+	for _, e := range exp {
+		want = append(want, e.Hash)
+	}
+	if !strict {
+		r.Probe("iter-ties")
+		// order among tied entries is not determined: only what does not depend on it is required
+		key := func(h string) string { return fmt.Sprintf("%012d/%s", m.Reg[h].Time, m.Reg[h].ClockID) }
+		emitted := map[string]bool{}
+		for _, h := range got {
+			if !R[h] {
+				r.Violate("C15:range", "Iterator(%s) emitted %s which is outside the causal range", desc, m.Name(h))
+			}
+			emitted[h] = true
+		}
+		if amount >= 0 && len(got) > amount {
+			r.Violate("C15:count", "Iterator(%s) emitted %d entries, at most %d allowed", desc, len(got), amount)
+		}
+		if lower > 0 {
+			x := opts.GTE
+			if lower == 2 {
+				x = opts.GT
+			}
+			kx := key(x.String())
+			for _, h := range got {
+				if key(h) < kx {
+					r.Violate("C15:range", "Iterator(%s) emitted %s which is older than the lower bound", desc, m.Name(h))
+				}
+			}
+			if lower == 2 && emitted[x.String()] {
+				r.Violate("C15:range", "Iterator(%s) emitted its exclusive lower bound", desc)
+			}
+			if amount < 0 {
+				for h := range R {
+					if key(h) > kx && !emitted[h] {
+						r.Violate("C15:range", "Iterator(%s) did not emit %s which is newer than the lower bound", desc, m.Name(h))
+					}
+				}
+			}
+		} else if amount < 0 && joinS(sortedCopy(got)) != joinS(sortedCopy(want)) {
+			r.Violate("C15:range", "Iterator(%s) emitted %v, the causal range is %v", desc, m.Names(got), m.Names(want))
+		}
+		return
+	}
+	if related > 0 && amount >= 0 && lower == 0 {
+		// several causally related inclusive bounds: "at most amount", newest first, small shortfall tolerated
+		r.Probe("iter-related-bounds")
+		if len(got) > len(want) || len(got) < len(want)-(len(opts.LTE)-1) || joinS(got) != joinS(want[:len(got)]) {
+			r.Violate("C15:range", "Iterator(%s) emitted %v, expected the newest %d (or up to %d fewer) of %v", desc, m.Names(got), len(want), len(opts.LTE)-1, m.Names(want))
+		}
+		return
+	}
+	if joinS(got) != joinS(want) {
+		r.Violate("C15:range", "Iterator(%s) emitted %v, expected %v", desc, m.Names(got), m.Names(want))
+	}
+}
+
+// ------------------------------------------------------------------ C16 bounded merge
+
+func (w *World) doBounded() {
+	a, b := w.pickUp("bnd-a"), w.pickUp("bnd-b")
+	pick := w.R.Choose("bnd-n", 1<<16)
+	if a == nil || b == nil || a == b {
+		return
+	}
+	r := w.R
+	m := w.M
+	u := copySet(a.Set)
+	union(u, b.Set)
+	total := len(u)
+	nBound := pick % (total + 4)
+	lin, strict := m.Linear(u, w.ByHash)
+	if !strict {
+		// reference = what the unbounded merge produces on identical clones
+		ref := w.clone(a, true)
+		if _, err := ref.Join(w.clone(b, true), -1); err != nil {
+			r.Violate("C16:join-error", "unbounded reference merge failed: %v", err)
+		}
+		lin = hashSeq(ref.Values())
+		r.Probe("bounded-ties")
+	}
+	k := nBound
+	if k > total {
+		k = total
+		r.Probe("bound-beyond-total")
+	}
+	if nBound == 0 {
+		r.Probe("bound-zero")
+	}
+	kept := lin[len(lin)-k:]
+	named := map[string]bool{}
+	for _, h := range kept {
+		for _, nx := range m.Reg[h].Next {
+			named[nx] = true
+		}
+	}
+	var wantHeads []string
+	for _, h := range kept {
+		if !named[h] {
+			wantHeads = append(wantHeads, h)
+		}
+	}
+	sort.Strings(wantHeads)
+	c := w.clone(a, true)
+	src := w.clone(b, true)
+	var err error
+	out := Protect(func() { _, err = c.Join(src, nBound) })
+	r.Logf("bounded n%d+n%d bound=%d total=%d", a.Idx, b.Idx, nBound, total)
+	if out.Status == "violation" {
+		r.Violate("C16:panic", "Join with size bound %d (merged size %d) panicked: %s", nBound, total, out.Msg)
+	} else if out.Status != "ok" {
+		r.Harness("%s", out.Msg)
+	}
+	if err != nil {
+		r.Violate("C16:join-error", "bounded merge of honest logs returned %v", err)
+	}
+	vals := hashSeq(c.Values())
+	if strict {
+		if joinS(vals) != joinS(kept) {
+			r.Violate("C16:values", "bound %d of %d: values %v, the last %d of the full linearisation are %v", nBound, total, m.Names(vals), k, m.Names(kept))
+		}
+	} else {
+		// comparator ties: which of several tied entries sits at the cut, and their relative order, is not
+		// determined; the kept multiset of (time, id) keys and sortedness are
+		key := func(h string) string { return fmt.Sprintf("%012d/%s", m.Reg[h].Time, m.Reg[h].ClockID) }
+		var gk, wk []string
+		for _, h := range vals {
+			if !u[h] {
+				r.Violate("C16:values", "bound %d of %d: value %s is not in the merged set", nBound, total, m.Name(h))
+			}
+			gk = append(gk, key(h))
+		}
+		for _, h := range kept {
+			wk = append(wk, key(h))
+		}
+		if !sort.StringsAreSorted(gk) || hasDup(vals) || joinS(gk) != joinS(sortedCopy(wk)) {
+			r.Violate("C16:values", "bound %d of %d (ties): values %v are not the last %d by (time, id); full linearisation %v", nBound, total, m.Names(vals), k, m.Names(lin))
+		}
+		named = map[string]bool{}
+		for _, h := range vals {
+			for _, nx := range m.Reg[h].Next {
+				named[nx] = true
+			}
+		}
+		wantHeads = nil
+		for _, h := range vals {
+			if !named[h] {
+				wantHeads = append(wantHeads, h)
+			}
+		}
+		sort.Strings(wantHeads)
+	}
+	heads := sortedCopy(hashSeq(c.Heads()))
+	if joinS(heads) != joinS(wantHeads) {
+		r.Violate("C16:heads", "bound %d of %d: heads %v, unreferenced among the kept entries are %v", nBound, total, m.Names(heads), m.Names(wantHeads))
+	}
+	if c.Len() != k || len(hashSet(c.GetEntries())) != k {
+		r.Violate("C16:len", "bound %d of %d: log holds %d entries, want %d", nBound, total, c.Len(), k)
+	}
+	if len(wantHeads) > 1 {
+		r.Probe("bounded-forked-result")
+	}
+}
+
+// ------------------------------------------------------------------ C06 / C07
+
+// policy is an access controller the harness can configure.
+type policy struct {
+	kind     int // 0 permit, 1 deny writer, 2 deny payload prefix, 3 deny nth call
+	writerID string
+	prefix   []byte
+	nth      int64
+	calls    atomic.Int64
+	denied   atomic.Int64
+}
+
+func (p *policy) CanAppend(e accesscontroller.LogEntry, _ identityprovider.Interface, _ accesscontroller.CanAppendAdditionalContext) error {
+	c := p.calls.Add(1)
+	deny := false
+	switch p.kind {
+	case 1:
+		deny = e.GetIdentity() != nil && e.GetIdentity().ID == p.writerID
+	case 2:
+		deny = bytes.HasPrefix(e.GetPayload(), p.prefix)
+	case 3:
+		deny = c == p.nth
+	}
+	if deny {
+		p.denied.Add(1)
+		return fmt.Errorf("policy: append denied")
+	}
+	return nil
+}
+
+func (p *policy) deniesModel(e iface.IPFSLogEntry) bool {
+	switch p.kind {
+	case 1:
+		return e.GetIdentity() != nil && e.GetIdentity().ID == p.writerID
+	case 2:
+		return bytes.HasPrefix(e.GetPayload(), p.prefix)
+	}
+	return false
+}
+
+// modelDifference: the entries a merge of (entries, heads) into a replica holding
+// `have` considers: reachable from the heads through entries of the source that the
+// replica lacks and that carry the log's id.
+func (w *World) modelDifference(src map[string]iface.IPFSLogEntry, heads []string, have map[string]bool) []string {
+	seen := map[string]bool{}
+	var out []string
+	stack := append([]string(nil), heads...)
+	for _, h := range heads {
+		seen[h] = true
+	}
+	for len(stack) > 0 {
+		h := stack[0]
+		stack = stack[1:]
+		e, ok := src[h]
+		if !ok || have[h] || e.GetLogID() != w.LogID {
+			continue
+		}
+		out = append(out, h)
+		for _, nx := range e.GetNext() {
+			s := nx.String()
+			if !seen[s] && !have[s] {
+				seen[s] = true
+				stack = append(stack, s)
+			}
+		}
+	}
+	return out
+}
+
+// freshBatch appends k honest entries on a scratch clone of n (they are new to every replica).
+func (w *World) freshBatch(n *Node, k int) *ipfslog.IPFSLog {
+	c := w.clone(n, true)
+	for i := 0; i < k; i++ {
+		e, err := c.Append(w.ctx, w.payload(), &ipfslog.AppendOptions{PointerCount: w.pointerCount()})
+		if err != nil {
+			w.R.Violate(w.P.Prop+":append-error", "append on a scratch clone failed: %v", err)
+		}
+		w.register(e)
+	}
+	return c
+}
+
+func (w *World) doByz() {
+	s, rcv := w.pickUp("byz-sender"), w.pickUp("byz-receiver")
+	r := w.R
+	extra := r.Choose("byz-batch", 5)
+	batch := []int{0, 1, 3, 8, 40}[extra]
+	nbad := 1 + r.Choose("byz-nbad", 3)
+	if r.Choose("byz-honest", 6) == 0 {
+		nbad = 0
+	}
+	if s == nil || rcv == nil || s == rcv {
+		return
+	}
+	src := w.freshBatch(s, batch)
+	srcEntries := map[string]iface.IPFSLogEntry{}
+	for _, e := range src.GetEntries().Slice() {
+		srcEntries[e.GetHash().String()] = e
+	}
+	heads := hashSeq(src.Heads())
+	cand := w.modelDifference(srcEntries, heads, rcv.Set)
+	others := Writers()
+	var badNames []string
+	bad := map[string]int{}
+	if len(cand) > 0 {
+		for i := 0; i < nbad; i++ {
+			// position: head, root, or anywhere in the batch
+			var h string
+			switch r.Choose("byz-pos", 3) {
+			case 0:
+				h = cand[0]
+			case 1:
+				h = cand[len(cand)-1]
+			default:
+				h = cand[r.Choose("byz-idx", len(cand))]
+			}
+			kind := r.Choose("byz-kind", nBad)
+			if _, dup := bad[h]; dup {
+				continue
+			}
+			o := srcEntries[cand[r.Choose("byz-other", len(cand))]]
+			if o.GetHash().String() == h {
+				o = nil
+			}
+			ok := others[r.Choose("byz-otherkey", len(others))].ID.PublicKey
+			tr := tamper(r, srcEntries[h], kind, o, ok)
+			if !tr.applied || tr.invisible {
+				continue
+			}
+			srcEntries[h] = tr.e
+			bad[h] = kind
+			badNames = append(badNames, fmt.Sprintf("%s:%s", w.M.Name(h), tamperNames[kind]))
+			r.Fault("tamper-" + tamperNames[kind])
+		}
+	}
+	// what the receiver must consider, given the (possibly altered) link structure
+	cand = w.modelDifference(srcEntries, heads, rcv.Set)
+	anyBad := false
+	for _, h := range cand {
+		if _, b := bad[h]; b {
+			anyBad = true
+		}
+	}
+	om := entry.NewOrderedMap()
+	for _, h := range sortedKeysE(srcEntries) {
+		om.Set(h, srcEntries[h])
+	}
+	var headEntries []iface.IPFSLogEntry
+	for _, h := range heads {
+		headEntries = append(headEntries, srcEntries[h])
+	}
+	o := w.logOpts()
+	o.Entries = om
+	o.Heads = headEntries
+	evil := w.newLog(s.W, o)
+	// the merge goes into a scratch clone of the receiver: a batch whose history is cut by an
+	// invalid entry legitimately leaves a hole, and the rest of the world assumes closed logs
+	dst := w.clone(rcv, true)
+	dstSet := copySet(rcv.Set)
+	before := w.observe(dst)
+	lenBefore := dst.Len()
+	_, err := dst.Join(evil, -1)
+	r.Logf("byz n%d->n%d batch=%d candidates=%d bad=%v err=%v", s.Idx, rcv.Idx, batch, len(cand), badNames, err != nil)
+	if len(cand) > 8 && anyBad {
+		r.Probe("bad-entry-in-batch-over-8")
+	}
+	if anyBad {
+		if err == nil {
+			r.Violate("C06:admitted-invalid", "merge admitted a batch of %d entries containing invalid entries %v", len(cand), badNames)
+		}
+		_, strict := w.M.Linear(rcv.Set, w.ByHash)
+		if d := w.sameObs(before, w.observe(dst), strict); d != "" || dst.Len() != lenBefore {
+			r.Violate("C06:not-atomic", "refused merge (bad entries %v in a batch of %d) changed the log: %s", badNames, len(cand), d)
+		}
+		return
+	}
+	if err != nil {
+		r.Violate("C06:refused-valid", "merge of %d valid entries was refused: %v (tampered but not candidates: %v)", len(cand), err, badNames)
+	}
+	for _, h := range cand {
+		dstSet[h] = true
+	}
+	// an accepted merge must have added exactly the candidates: nothing that was not verified
+	// may become observable, not even as a head
+	if got := sortedKeys(hashSet(dst.GetEntries())); joinS(got) != joinS(sortedKeys(dstSet)) {
+		r.Violate("C06:merge-result", "accepted merge left %d entries, expected %d", len(got), len(dstSet))
+	}
+	if hs, mh := sortedCopy(hashSeq(dst.Heads())), w.M.Heads(dstSet); joinS(hs) != joinS(mh) {
+		r.Violate("C06:unverified-head", "accepted merge left heads %v, the verified entries' heads are %v (tampered non-candidates: %v)", w.M.Names(hs), w.M.Names(mh), badNames)
+	}
+}
+
+func sortedKeysE(m map[string]iface.IPFSLogEntry) []string {
+	out := make([]string, 0, len(m))
+	for k := range m {
+		out = append(out, k)
+	}
+	sort.Strings(out)
+	return out
+}
+
+// doPolicy: merges and appends under access-control policies, on scratch clones.
+func (w *World) doPolicy() {
+	s, rcv := w.pickUp("pol-sender"), w.pickUp("pol-receiver")
+	r := w.R
+	kind := 1 + r.Choose("pol-kind", 3)
+	batch := []int{1, 2, 6, 20}[r.Choose("pol-batch", 4)]
+	wpick := r.Choose("pol-writer", len(Writers()))
+	nth := 1 + r.Choose("pol-nth", 25)
+	if s == nil || rcv == nil || s == rcv {
+		return
+	}
+	src := w.freshBatch(s, batch)
+	srcEntries := map[string]iface.IPFSLogEntry{}
+	for _, e := range src.GetEntries().Slice() {
+		srcEntries[e.GetHash().String()] = e
+	}
+	cand := w.modelDifference(srcEntries, hashSeq(src.Heads()), rcv.Set)
+	p := &policy{kind: kind, writerID: Writers()[wpick].ID.ID, nth: int64(nth)}
+	if kind == 2 && len(cand) > 0 {
+		// a payload some candidate really carries (or not)
+		pl := srcEntries[cand[r.Choose("pol-victim", len(cand))]].GetPayload()
+		p.prefix = append([]byte(nil), pl...)
+		if r.Choose("pol-miss", 4) == 0 {
+			p.prefix = []byte("no-such-payload")
+		}
+	}
+	o := w.logOpts()
+	o.Entries = rcv.Log.GetEntries()
+	o.Heads = rcv.Log.Heads().Slice()
+	o.AccessController = p
+	dst := w.newLog(rcv.W, o)
+	before := w.observe(dst)
+	_, err := dst.Join(src, -1)
+	expectDeny := false
+	switch kind {
+	case 1, 2:
+		for _, h := range cand {
+			if p.deniesModel(srcEntries[h]) {
+				expectDeny = true
+			}
+		}
+	case 3:
+		expectDeny = nth <= len(cand)
+	}
+	r.Logf("policy-merge n%d->clone(n%d) kind=%d candidates=%d expectDeny=%v err=%v", s.Idx, rcv.Idx, kind, len(cand), expectDeny, err != nil)
+	if expectDeny {
+		r.Fault("policy-deny")
+		if err == nil {
+			r.Violate("C06:admitted-denied", "merge admitted %d entries although the access controller denies one of them (policy %d)", len(cand), kind)
+		}
+		_, strict := w.M.Linear(rcv.Set, w.ByHash)
+		if d := w.sameObs(before, w.observe(dst), strict); d != "" {
+			r.Violate("C06:not-atomic", "denied merge changed the log: %s", d)
+		}
+	} else {
+		if err != nil {
+			r.Violate("C06:refused-valid", "merge of %d permitted entries was refused: %v", len(cand), err)
+		}
+		u := copySet(rcv.Set)
+		for _, h := range cand {
+			u[h] = true
+		}
+		if got := hashSet(dst.GetEntries()); !setEq(got, u) {
+			r.Violate("C06:merge-result", "permitted merge holds %d entries, expected %d", len(got), len(u))
+		}
+	}
+}
+
+// doDenied: an append the controller denies leaves entries and heads unchanged.
+func (w *World) doDenied() {
+	n := w.pickUp("deny-node")
+	r := w.R
+	match := r.Choose("deny-match", 3) != 0
+	kind := 1 + r.Choose("deny-kind", 2)
+	if n == nil {
+		return
+	}
+	pl := w.payload()
+	p := &policy{kind: kind, writerID: n.W.ID.ID, prefix: pl}
+	if !match {
+		p.writerID = "nobody"
+		p.prefix = []byte("no-such-payload")
+	}
+	o := w.logOpts()
+	o.Entries = n.Log.GetEntries()
+	o.Heads = n.Log.Heads().Slice()
+	o.AccessController = p
+	c := w.newLog(n.W, o)
+	before := w.observe(c)
+	e, err := c.Append(w.ctx, pl, nil)
+	r.Logf("denied-append clone(n%d) kind=%d match=%v err=%v", n.Idx, kind, match, err != nil)
+	if match {
+		r.Fault("policy-deny")
+		if err == nil {
+			r.Violate("C06:append-admitted-denied", "append succeeded although the access controller denies it")
+		}
+		_, strict := w.M.Linear(n.Set, w.ByHash)
+		if d := w.sameObs(before, w.observe(c), strict); d != "" {
+			r.Violate("C06:denied-append-changed-log", "denied append changed the log: %s", d)
+		}
+		return
+	}
+	if err != nil {
+		r.Violate("C06:append-refused", "append refused although the controller permits it: %v", err)
+	}
+	w.register(e)
+}
+
+// doTamper (C07): single-field corruption of an honest entry must make Verify fail.
+func (w *World) doTamper() {
+	n := w.pickUp("tamper-node")
+	r := w.R
+	pick := r.Choose("tamper-entry", 1<<16)
+	pick2 := r.Choose("tamper-other", 1<<16)
+	kind := r.Choose("tamper-kind", nTamper)
+	wk := r.Choose("tamper-key", len(Writers()))
+	viaStore := r.Choose("tamper-at-rest", 3) == 0
+	if n == nil || len(n.Set) == 0 {
+		return
+	}
+	all := sortedKeys(n.Set)
+	h := all[pick%len(all)]
+	var e iface.IPFSLogEntry
+	if w.Codec == "pb" {
+		viaStore = false
+	}
+	if viaStore {
+		// corruption at rest: start from what a reader decodes from the stored block
+		var err error
+		e, err = entry.FromMultihashWithIO(w.ctx, w.St, w.Cids[h], n.W.ID.Provider, w.IO)
+		if err != nil {
+			r.Violate("C07:readback", "honest block %s does not decode: %v", w.M.Name(h), err)
+		}
+	} else {
+		e, _ = n.Log.Get(w.Cids[h])
+	}
+	if err := e.Verify(n.W.ID.Provider, w.IO); err != nil {
+		r.Violate("C07:honest-verify", "honest entry %s does not verify (%s): %v", w.M.Name(h), map[bool]string{true: "decoded from its block", false: "in memory"}[viaStore], err)
+	}
+	oh := all[pick2%len(all)]
+	var other iface.IPFSLogEntry
+	if oh != h {
+		other, _ = n.Log.Get(w.Cids[oh])
+	}
+	tr := tamper(r, e, kind, other, Writers()[wk].ID.PublicKey)
+	if !tr.applied {
+		r.Logf("tamper %s kind=%s not applicable", w.M.Name(h), tamperNames[kind])
+		return
+	}
+	r.Fault("tamper-" + tamperNames[kind])
+	var err error
+	out := Protect(func() { err = tr.e.Verify(n.W.ID.Provider, w.IO) })
+	r.Logf("tamper %s kind=%s (%s) at-rest=%v next=%d refs=%d -> verify err=%v", w.M.Name(h), tamperNames[kind], tr.detail, viaStore, len(e.GetNext()), len(e.GetRefs()), err != nil)
+	if out.Status != "ok" {
+		r.Violate("C07:verify-panic", "Verify panicked on a tampered entry (%s): %s", tamperNames[kind], out.Msg)
+	}
+	if err == nil {
+		if tr.invisible {
+			r.Violate("C07:"+tamperNames[kind], "payload change invisible in the signed JSON (invalid UTF-8 bytes are replaced before signing): %s still verifies", tr.detail)
+		}
+		r.Violate("C07:"+tamperNames[kind], "entry %s with %s still verifies", w.M.Name(h), tr.detail)
+	}
+}
+
+// ------------------------------------------------------------------ after-append checks (C06, C08, C18)
+
+func (w *World) afterAppend(n *Node, e iface.IPFSLogEntry, me *MEntry) {
+	r := w.R
+	chk := w.P.Check
+	if chk["C06"] {
+		var err error
+		out := Protect(func() { err = e.Verify(n.W.ID.Provider, w.IO) })
+		if out.Status != "ok" {
+			r.Violate("C06:verify-panic", "Verify of a freshly appended entry panicked under codec %s: %s", w.Codec, out.Msg)
+		}
+		if err != nil {
+			r.Violate("C06:append-verifies", "entry returned by Append does not verify under codec %s (next=%d refs=%d): %v", w.Codec, len(e.GetNext()), len(e.GetRefs()), err)
+		}
+		// a fresh permissive replica must admit it
+		fresh := w.newLog(Writers()[4], w.logOpts())
+		o := w.logOpts()
+		om := entry.NewOrderedMap()
+		om.Set(me.Hash, e)
+		o.Entries = om
+		o.Heads = []iface.IPFSLogEntry{e}
+		carrier := w.newLog(n.W, o)
+		if _, err := fresh.Join(carrier, -1); err != nil {
+			r.Violate("C06:append-mergeable", "a fresh permissive replica refused an entry produced by Append under codec %s: %v", w.Codec, err)
+		}
+		if _, ok := fresh.Get(e.GetHash()); !ok {
+			r.Violate("C06:append-mergeable", "a fresh permissive replica did not take an entry produced by Append under codec %s", w.Codec)
+		}
+	}
+	if chk["C08"] {
+		w.checkReadBack(n, e, me)
+	}
+	if chk["C18"] && w.LinkKeyBytes != nil {
+		w.checkLinkKeyEntry(n, e, me)
+	}
+}
+
